@@ -80,11 +80,18 @@ def run(prop, tier, replay=None):
         scenarios += fe.gen_scenarios(seed, ngen)
 
     lines, wall, bwall = fe.replay(work, scenarios, shards)
-    bad = {ln["t"] for ln in lines if ln["ev"] == "Slow"}      # wall-clock compromised: not judged
+    planned = len(scenarios)
+    stalled = {ln["t"] for ln in lines if ln["ev"] == "Stall"}
+    # discarded = histories that COMPLETED but contained a wait long enough to come near the code's own timeouts;
+    # a history in which the watcher stalled is never discarded: the stall is the observation
+    bad = {ln["t"] for ln in lines if ln["ev"] == "Slow"} - stalled
     lines = [ln for ln in lines if ln["t"] not in bad]
-    ran = len({ln["t"] for ln in lines})
-    print("ran %d of %d chain histories (%d recorded lines) on the real Watcher.Run in %.1fs (build %.1fs); %d discarded as slow"
-          % (ran, len(scenarios), len(lines), wall, bwall, len(bad)))
+    executed = {ln["t"] for ln in lines}
+    ran = len(executed)
+    print("ran %d of %d chain histories (%d recorded lines) on the real Watcher.Run in %.1fs (build %.1fs); %d discarded as slow; %d with a stall"
+          % (ran, planned, len(lines), wall, bwall, len(bad), len(stalled)))
+    if not lines:
+        raise vlib.Broken("no line was recorded from the real Watcher.Run (%d histories planned, %d discarded as slow)" % (planned, len(bad)))
     rejs, r = fe.validate(work, lines, parallel=shards)
     print("trace validation: %d states, %.1fs, %d rejected line(s)" % (r["distinct"], r["wall_s"], len(rejs)))
 
@@ -111,8 +118,17 @@ def run(prop, tier, replay=None):
         for sg in (sig if isinstance(sig, list) else [sig]):
           verdict.add(sg, {"line": ln, "why": rj.get("why"), "spec_state": rj.get("spec"), "tlc": rj.get("tlc"),
                            "trace": lines[max(first.get(rj["t"], 0), (i or 0) - 24):(i or 0) + 1], "scenario": sc})
-    if not verdict.items and len(timeouts) > max(2, ran // 50):
-        raise vlib.Broken("the harness could not drive the watcher in %d scenarios, e.g. %s" % (len(timeouts), timeouts[:3]))
+    if not verdict.items:
+        # nothing the real code did was rejected: the run only counts if it really covered what was planned
+        if len(timeouts) > max(2, ran // 50):
+            raise vlib.Broken("the harness could not drive the watcher in %d scenarios, e.g. %s" % (len(timeouts), timeouts[:3]))
+        if not replay and ran < 0.9 * planned:
+            raise vlib.Broken("only %d of %d planned chain histories were executed (%d discarded as slow) and no violation explains it"
+                              % (ran, planned, len(bad)))
+        srcs_planned = {sc.get("src") for sc in scenarios}
+        srcs_ran = {scenarios[t - 1].get("src") for t in executed if 0 < t <= planned}
+        if srcs_planned - srcs_ran:
+            raise vlib.Broken("no history of source(s) %s was executed" % sorted(srcs_planned - srcs_ran))
     rc = verdict.finish()
 
     # ---- coverage actually reached by this run
@@ -181,7 +197,7 @@ def run(prop, tier, replay=None):
         "mc_configs": mcs, "trace_spec_states": r["distinct"], "line_kinds": dict(acts), "effects_observed": dict(eff),
         "scenario_sources": dict(Counter(sc.get("src") for sc in scenarios)),
         "modes": dict(Counter("finalized" if sc["cfg"]["fin"] else "latest" for sc in scenarios)),
-        "discarded_slow": len(bad), "harness_timeouts": len(timeouts), "rejected_lines": len(verdict.items), "known_findings_matched": getattr(verdict, "n_known", 0),
+        "planned": planned, "executed": ran, "stalled": len(stalled), "discarded_slow": len(bad), "harness_timeouts": len(timeouts), "rejected_lines": len(verdict.items), "known_findings_matched": getattr(verdict, "n_known", 0),
         "signatures": dict(Counter(s for s, _ in verdict.items)),
         "exhaustive": False,
     }
